@@ -477,6 +477,8 @@ func (ef *Effects) callSite(fn *ssa.Function, cc *ssa.CallCommon, d map[string]b
 		key := typeKey(cc.Value.Type()) + "." + cc.Method.Name()
 		ex[key] = true
 		if con := ef.eng.contracts[key]; con != nil {
+			d[callCounter(key)] = true
+			ef.eng.heapSorts[callCounter(key)] = "(Array Int Int)"
 			if mods, ok := ef.contractMods(con, nil, cc.Method.Type().(*types.Signature)); ok {
 				for k := range mods {
 					d[k] = true
@@ -499,6 +501,8 @@ func (ef *Effects) callSite(fn *ssa.Function, cc *ssa.CallCommon, d map[string]b
 			if origin := fieldOrigin(cc.Value); origin != "" {
 				ex[origin] = true
 				if con := ef.eng.contracts[origin]; con != nil {
+					d[callCounter(origin)] = true
+					ef.eng.heapSorts[callCounter(origin)] = "(Array Int Int)"
 					if mods, ok := ef.contractMods(con, nil, cc.Signature()); ok {
 						for k := range mods {
 							d[k] = true
@@ -515,6 +519,8 @@ func (ef *Effects) callSite(fn *ssa.Function, cc *ssa.CallCommon, d map[string]b
 	key := funcKey(callee)
 	ex[key] = true
 	if con := ef.eng.contracts[key]; con != nil && !con.Inline {
+		d[callCounter(key)] = true
+		ef.eng.heapSorts[callCounter(key)] = "(Array Int Int)"
 		if mods, ok := ef.contractMods(con, callee, callee.Signature); ok {
 			for k := range mods {
 				d[k] = true
